@@ -31,6 +31,8 @@ def run(ctx):
     # per-level leaders, 1-3 occupancy levels, flatten() of ranks of any tensor incl. the output (contiguous / swizzled /
     # bottom shape levels), two flattens, output-concordant and default loop orders, 4 ranks (tools/specgen_wide.py)
     pops += list(specgen_wide.wide_items(rng, 250 if q else 2000, flatten_p=0.6, occ_flat_p=0.45, concordant_p=0.4))
+    # two partitioned Einsums over the same rank names in one specification (the second may read the first one's result)
+    pops += list(specgen_wide.wide_pairs(rng, 60 if q else 500))
     cases = []
     stats = {"by_kind": {}, "rejected": 0, "naming": {}, "features": {}}
     for it in pops:
